@@ -239,13 +239,14 @@ type faultWriter struct {
 	calls  int
 	failAt int // -1: never
 	short  bool
+	once   bool // the fault hits the one call only; later calls succeed (a sink that recovers: the output has a hole)
 	failed bool
 }
 
 func (w *faultWriter) Write(p []byte) (int, error) {
 	i := w.calls
 	w.calls++
-	if w.failAt >= 0 && i >= w.failAt {
+	if w.failAt >= 0 && i >= w.failAt && (!w.once || i == w.failAt) {
 		w.failed = true
 		if w.short && i == w.failAt && len(p) > 1 {
 			n := len(p) / 2
@@ -794,7 +795,7 @@ func runWrite(c *h.Ctx, cs Case, b *built, api string) {
 		return
 	}
 	k := cs.K % n
-	fw := &faultWriter{failAt: k, short: cs.FaultKind == "short"}
+	fw := &faultWriter{failAt: k, short: cs.FaultKind == "short" || cs.FaultKind == "short-once", once: cs.FaultKind == "fail-once" || cs.FaultKind == "short-once"}
 	var werr error
 	var wid cid.Cid
 	if pn, pv, _ := h.Try(func() { wid, werr = writeStream(cs, b, fw) }); pn {
@@ -858,7 +859,7 @@ func draw(t *rapid.T) Case {
 			cs.ErrIdent = rapid.IntRange(0, len(errIdents)-1).Draw(t, "errident")
 		}
 	default:
-		cs.FaultKind = rapid.SampledFrom([]string{"", "fail", "short"}).Draw(t, "wfk")
+		cs.FaultKind = rapid.SampledFrom([]string{"", "fail", "short", "fail-once", "short-once"}).Draw(t, "wfk")
 		cs.K = rapid.IntRange(0, 500).Draw(t, "wk")
 	}
 	return cs
@@ -876,7 +877,12 @@ func fixedArtefacts() [][]tok.Tok {
 	i1 := tok.Tok{Inv: &tok.Inv{Iss: k(keys.Ed25519, 2), Sub: k(keys.Ed25519, 0), Cmd: "/foo/bar", Nonce: n(3), NoIat: true, Prf: [][]byte{{1}}, Args: []tok.KVal{{K: "a", V: one}}}}
 	d2 := tok.Tok{Dlg: &tok.Dlg{Iss: k(keys.P256, 1), Aud: k(keys.Ed25519, 2), Sub: "none", Cmd: "/", Nonce: n(2)}}
 	r1 := tok.Tok{Dlg: &tok.Dlg{Iss: k(keys.RSA, 0), Aud: k(keys.Ed25519, 2), Sub: "iss", Cmd: "/rsa", Nonce: n(4)}}
-	sets := [][]tok.Tok{{d1}, {i1}, {d1, i1}, {d1, i1, d2}}
+	// one token with a value larger than a typical I/O buffer (4 KiB), one with two such values around a small one
+	big := func(nn int) val.V { return val.Bytes(bytes.Repeat([]byte{0xab}, nn)) }
+	b1 := tok.Tok{Dlg: &tok.Dlg{Iss: k(keys.Ed25519, 0), Aud: k(keys.Ed25519, 1), Sub: "iss", Cmd: "/big", Nonce: n(5), Meta: []tok.KVal{{K: "blob", V: big(5000)}}}}
+	b2 := tok.Tok{Inv: &tok.Inv{Iss: k(keys.Ed25519, 2), Sub: k(keys.Ed25519, 0), Cmd: "/big/two", Nonce: n(6), NoIat: true, Prf: [][]byte{{1}},
+		Args: []tok.KVal{{K: "a", V: big(4096)}, {K: "b", V: one}, {K: "c", V: big(9000)}}}}
+	sets := [][]tok.Tok{{d1}, {i1}, {d1, i1}, {d1, i1, d2}, {b1}, {b2}}
 	if h.Thorough() {
 		sets = append(sets, []tok.Tok{r1}, []tok.Tok{d2}, []tok.Tok{d1, i1, d2, r1})
 	}
@@ -923,8 +929,14 @@ func TestFaultEnumeration(t *testing.T) {
 				if !ok {
 					t.Fatalf("INCONCLUSIVE fixed artefact does not build")
 				}
+				// the large-value artefacts are there for the WRITE side (a value larger than an I/O buffer takes another
+				// path through a buffering writer); in the quick tier their read side is covered near both ends only
+				bigQuick := len(b.bytes) > 3000 && h.Tier() == "quick"
 				// chunkings
 				for _, ch := range [][]int{nil, {1}, {2, 3, 5}, {7}, {64}, {1, 100}} {
+					if bigQuick && len(ch) > 1 {
+						continue
+					}
 					for _, dw := range []bool{false, true} {
 						for _, zr := range []bool{false} {
 							cs := base
@@ -935,6 +947,12 @@ func TestFaultEnumeration(t *testing.T) {
 				}
 				// read faults at every offset
 				for k := 0; k <= len(b.bytes); k++ {
+					if len(b.bytes) > 3000 && k > 96 && k < len(b.bytes)-96 && k%(97+len(b.bytes)/400) != 0 {
+						continue // large artefacts: every offset near both ends, a coarse stride in between
+					}
+					if bigQuick && k > 16 && k < len(b.bytes)-16 {
+						continue
+					}
 					for fi, fk := range readFaultKinds {
 						if h.Tier() == "quick" && fi >= 2 && (k+fi)%4 != 0 && k > 12 && k < len(b.bytes)-12 {
 							continue // quick tier: the secondary fault shapes at every 4th offset (rotating) and near both ends
@@ -981,6 +999,9 @@ func TestFaultEnumeration(t *testing.T) {
 				}
 				// every error identity x every source type, at both ends, in the middle and at the section boundaries' neighbours
 				for _, k := range []int{0, 1, len(b.bytes) / 3, len(b.bytes) / 2, len(b.bytes) - 1, len(b.bytes)} {
+					if bigQuick && k != len(b.bytes) {
+						continue
+					}
 					for ei := range errIdents {
 						for si := range srcKinds {
 							for _, fk := range []string{"error", "error-with-data"} {
@@ -1001,7 +1022,7 @@ func TestFaultEnumeration(t *testing.T) {
 					cs.Op = "writefault"
 					prop.One(t, cs) // clean comparison
 					for k := 0; k < clean.calls; k++ {
-						for _, fk := range []string{"fail", "short"} {
+						for _, fk := range []string{"fail", "short", "fail-once", "short-once"} {
 							cs := base
 							cs.Op, cs.FaultKind, cs.K = "writefault", fk, k
 							prop.One(t, cs)
@@ -1077,7 +1098,7 @@ func writeFaultsAtEnds(t *testing.T, base Case) int {
 			continue
 		}
 		seen[k] = true
-		for _, fk := range []string{"fail", "short"} {
+		for _, fk := range []string{"fail", "short", "fail-once", "short-once"} {
 			cs := base
 			cs.Op, cs.FaultKind, cs.K = "writefault", fk, k
 			prop.One(t, cs)
